@@ -724,6 +724,7 @@ func (c *rrComp) Run(h *hlib.History) ([]hlib.Mon, bool) {
 			if hasc != 0 {
 				req.AddCookie(&http.Cookie{Name: "c", Value: mustParse(urlTable[id]).String()})
 			}
+			req = hlib.Abandoned(hlib.Vary(req, step), step%7 == 3)
 			rec := httptest.NewRecorder()
 			calls0 := r.calls
 			r.lastURL = nil
